@@ -1,7 +1,7 @@
 /-
   Line-protocol driver: dispatch over op groups and per-line verdict.  IMPORT-FREE.
 -/
-import OHVerif.Model.DriverStrict
+import OHVerif.Model.DriverLax
 
 namespace OH
 namespace Drv
@@ -15,6 +15,9 @@ def dispatch (op : String) (args : List Sx) (impl : Sx) : Option Outcome :=
   if op.startsWith "prim." then prim B op args impl
   else if op.startsWith "ff." then ff B op args impl
   else if op.startsWith "ic." then ic B op args impl
+  else if op == "lax.edit" then laxEdit B op args impl
+  else if op.startsWith "lax.functor." || op.startsWith "functor." then functorG B op args impl
+  else if op.startsWith "lax." then laxCat B op args impl
   else if op.startsWith "hg." then hg B op args impl
   else if op.startsWith "oh." then oh B op args impl
   else if op.startsWith "law." then law B op args impl
